@@ -11,8 +11,10 @@ C02 (decoders are total): proofs about the checked-index model of `readLookupLis
   (`readLookupList_cost`: ≤ 2·|b| + 6000·(C + (K + 3))), NOT linear in |b|: `lookup_alias_cost`
   (n ≤ 3000 aliased offsets decode ONE subtable n times), `readLookupList_cost_not_linear`.
   The list reader itself (tied instance) is linear: `readLookupList_hook_cost`.
-* finding: `ext_ext_survives` (an extension record resolving to an extension record is accepted and
-  left in the lookup; its `apply` panics), `dispatch_key_wraps` (uint16 wrap of the reader key).
+* finding C02-lookuplist-ext-ext, about the PRE-REPAIR dispatchers (`dispatchOld`): `ext_ext_survives`
+  (an extension record resolving to an extension record was accepted and left in the lookup; its
+  `apply` panics), `dispatch_key_wraps` (uint16 wrap of the reader key); and its repair (/repo
+  8867078): `ext_ext_rejected`, `dispatch_key_no_wrap`, `dispatch_no_ext_ext` (+ `_gpos`).
 -/
 import SfntV.Model.TotalLookupList
 import SfntV.Proofs.TotalGdef
@@ -232,10 +234,10 @@ theorem dispatch_noPanic {σ : Type} (site : String) (keys : List Nat) (extKey :
   refine bind_noPanic (rd16_noPanic _ _ _) (fun format _ => ?_)
   dsimp only
   split
+  · exact True.intro
   · split
     · refine bind_noPanic (readExtensionSubtable_noPanic b _) (fun ⟨v, d⟩ _ => True.intro)
     · refine bind_noPanic (hsub _ _ _) (fun ⟨v, d⟩ _ => True.intro)
-  · exact True.intro
 
 theorem readGsubSubtable_noPanic {σ : Type} (sub : SubReaders σ)
     (hsub : ∀ t f p, (sub t f p).noPanic) (b : Bytes) (tp pos : Nat) :
@@ -727,6 +729,7 @@ theorem dispatch_cost {σ : Type} (site : String) (keys : List Nat) (extKey : Na
   obtain ⟨format, _, h⟩ := bind_eq_ok h
   dsimp only at h
   split at h
+  · cases h
   · split at h
     · obtain ⟨⟨v', d'⟩, hd, h⟩ := bind_eq_ok h
       cases h
@@ -739,7 +742,6 @@ theorem dispatch_cost {σ : Type} (site : String) (keys : List Nat) (extKey : Na
       have := hsub _ _ _ _ _ hd
       simp only [Cost.tick]
       refine ⟨by omega, fun hx => absurd hx (fun hx => hx)⟩
-  · cases h
 
 /-- `gtab.Read` (GSUB): with `C` the maximal cost of an individual subtable reader,
 steps, alloc ≤ |b| + 6000·(C + 7) — and this is attained up to the constant (`lookup_alias_cost`) -/
@@ -795,16 +797,19 @@ theorem readLookupList_hook_cost (b : Bytes) (extType pos : Nat) (r : List (Look
     (fun tp p v d hd => hookReader_cost b extType tp p v d hd)
     (fun tp p v d hd _ => hookReader_cost b extType tp p v d hd) b pos r c h
 
-/-! ## the finding: an extension record may resolve to another extension record
+/-! ## the finding C02-lookuplist-ext-ext (pre-repair dispatchers) and its repair
 
 `readLookupList` checks `tp == meta.LookupType` (extension → the SAME type) but not that the
-subtable decoded in the second pass is again an extension record.  With the real dispatchers this
-is reachable because the reader key `10*meta.LookupType+format` is computed in `uint16`:
-extension type 6560, format 7 gives key 65607 mod 65536 = 71 = `readExtensionSubtable` (likewise
-type 0 with format 71).  The 28-byte lookup list below (42 bytes as a GSUB table) is ACCEPTED and
-yields a lookup of type 6560 holding an `*extensionSubtable`, whose `apply` is
-`panic("unreachable")`: `Context.Apply` panics on the decoded table (checked on the real code:
-`total.lookuplist-apply table=gsub bytes=00010000000a000c000e00000000000100040007000000010008000119a0000000080007000100000000`). -/
+subtable decoded in the second pass is again an extension record.  With the dispatchers BEFORE
+/repo 8867078 (`dispatchOld`) this was reachable because the reader key `10*meta.LookupType+format`
+is computed in `uint16`: extension type 6560, format 7 gives key 65607 mod 65536 = 71 =
+`readExtensionSubtable` (likewise type 0 with format 71).  The 28-byte lookup list below (42 bytes
+as a GSUB table) was ACCEPTED and yielded a lookup of type 6560 holding an `*extensionSubtable`,
+whose `apply` is `panic("unreachable")`: `Context.Apply` panicked on the decoded table
+(`total.lookuplist-apply table=gsub bytes=00010000000a000c000e00000000000100040007000000010008000119a0000000080007000100000000`).
+The repaired dispatchers refuse lookup types and formats above 9; then only lookup type 7 (GSUB) /
+9 (GPOS) yields extension records and nothing else does, so no extension record is left in a
+successfully read lookup list (`readLookupList_no_ext`, `dispatch_no_ext_ext`). -/
 
 def extExtBytes : Bytes :=
   [0, 1, 0, 4,                       -- one lookup at +4
@@ -813,18 +818,248 @@ def extExtBytes : Bytes :=
    0, 7, 0, 1, 0, 0, 0, 0]           -- "type 6560 format 7" = key 71: an extension record again
 
 set_option maxRecDepth 20000 in
+/-- PRE-REPAIR dispatcher: the extension → extension list is accepted -/
 theorem ext_ext_survives {σ : Type} (sub : SubReaders σ) :
-    ∃ c, readLookupList (gsubReader sub extExtBytes) extExtBytes 0 =
+    ∃ c, readLookupList (gsubReaderOld sub extExtBytes) extExtBytes 0 =
       .ok ([⟨6560, 0, 0, [.ext 1 0]⟩], c) :=
   ⟨_, rfl⟩
 
-/-- the uint16 wrap of the reader key: lookup type 6554 with format word 7 is decoded by the reader
-of GSUB 1.1 (key 11), type 0 with format 71 by `readExtensionSubtable` — not rejected as unknown -/
+set_option maxRecDepth 20000 in
+/-- REPAIRED dispatcher: the same bytes are refused -/
+theorem ext_ext_rejected {σ : Type} (sub : SubReaders σ) :
+    readLookupList (gsubReader sub extExtBytes) extExtBytes 0 = .err "invalid" :=
+  rfl
+
+/-- PRE-REPAIR dispatcher, the uint16 wrap of the reader key: lookup type 6554 with format word 7
+was decoded by the reader of GSUB 1.1 (key 11) — not rejected as unknown -/
 theorem dispatch_key_wraps {σ : Type} (sub : SubReaders σ) (b : Bytes) (hb : rd16 "gsub.go:36#ReadUint16" b 0 = .ok 7) :
-    gsubReader sub b 6554 0 = (do let (v, d) ← sub 1 1 0; .ok (.other v, d.tick)) := by
+    gsubReaderOld sub b 6554 0 = (do let (v, d) ← sub 1 1 0; .ok (.other v, d.tick)) := by
+  unfold gsubReaderOld dispatchOld
+  rw [hb, ok_bind]
+  rfl
+
+/-- REPAIRED dispatcher: the same call is an error -/
+theorem dispatch_key_no_wrap {σ : Type} (sub : SubReaders σ) (b : Bytes) (hb : rd16 "gsub.go:36#ReadUint16" b 0 = .ok 7) :
+    gsubReader sub b 6554 0 = .err "invalid" := by
   unfold gsubReader dispatch
   rw [hb, ok_bind]
   rfl
+
+/-- every result of the first pass comes from a call of `sr` with the lookup's type -/
+theorem readSubs_mem {σ : Type} (sr : Reader σ) (tp lp n : Nat) :
+    ∀ (os : List Nat) (j : Nat) (r : List (SubV σ)) (c : Cost),
+    readSubs sr tp lp n os j = .ok (r, c) → ∀ s ∈ r, ∃ p d, sr tp p = .ok (s, d)
+  | [], _, r, c, h => by
+    unfold readSubs at h
+    cases h
+    intro s hs
+    cases hs
+  | o :: os, j, r, c, h => by
+    unfold readSubs at h
+    obtain ⟨⟨v, d⟩, hd, h⟩ := bind_eq_ok h
+    obtain ⟨_, _, h⟩ := bind_eq_ok h
+    obtain ⟨⟨r', c'⟩, hr, h⟩ := bind_eq_ok h
+    cases h
+    intro s hs
+    cases hs with
+    | head => exact ⟨_, _, hd⟩
+    | tail _ hs => exact readSubs_mem sr tp lp n os (j + 1) r' c' hr s hs
+
+/-- every result of the second pass comes from a call of `sr` with the extension lookup type -/
+theorem resolveExt_mem {σ : Type} (sr : Reader σ) (tp lp : Nat) (so : List Nat) (n : Nat) :
+    ∀ (ss : List (SubV σ)) (j : Nat) (r : List (SubV σ)) (c : Cost),
+    resolveExt sr tp lp so n ss j = .ok (r, c) → ∀ s ∈ r, ∃ p d, sr tp p = .ok (s, d)
+  | [], _, r, c, h => by
+    unfold resolveExt at h
+    cases h
+    intro s hs
+    cases hs
+  | s0 :: ss, j, r, c, h => by
+    unfold resolveExt at h
+    cases s0 with
+    | other v => cases h
+    | ext et eo =>
+      dsimp only at h
+      split at h
+      · cases h
+      · obtain ⟨o, _, h⟩ := bind_eq_ok h
+        obtain ⟨⟨v, d⟩, hd, h⟩ := bind_eq_ok h
+        obtain ⟨_, _, h⟩ := bind_eq_ok h
+        obtain ⟨⟨r', c'⟩, hr, h⟩ := bind_eq_ok h
+        cases h
+        intro s hs
+        cases hs with
+        | head => exact ⟨_, _, hd⟩
+        | tail _ hs => exact resolveExt_mem sr tp lp so n ss (j + 1) r' c' hr s hs
+
+section noext
+variable {σ : Type} (sr : Reader σ) (E : Nat)
+  (hE : ∀ tp p v d, sr tp p = .ok (v, d) → (v.isExt ↔ tp = E))
+
+include hE in
+theorem readLookup_no_ext (b : Bytes) (lp numL numS : Nat) (prev : List Nat)
+    (l : Lookup σ) (cnt : Nat) (so : List Nat) (c : Cost)
+    (h : readLookup sr b lp numL numS prev = .ok ((l, cnt, so), c)) : ∀ s ∈ l.subs, ¬ s.isExt := by
+  unfold readLookup at h
+  obtain ⟨buf, _, h⟩ := bind_eq_ok h
+  obtain ⟨tp, _, h⟩ := bind_eq_ok h
+  obtain ⟨flags, _, h⟩ := bind_eq_ok h
+  obtain ⟨cnt', hcnt, h⟩ := bind_eq_ok h
+  split at h
+  · cases h
+  obtain ⟨_, _, h⟩ := bind_eq_ok h
+  obtain ⟨⟨so', c1⟩, _, h⟩ := bind_eq_ok h
+  obtain ⟨⟨mfs, c2⟩, _, h⟩ := bind_eq_ok h
+  dsimp only at h
+  obtain ⟨_, _, h⟩ := bind_eq_ok h
+  obtain ⟨⟨subs, c3⟩, hsubs, h⟩ := bind_eq_ok h
+  have hmem := readSubs_mem sr tp lp cnt' so' 0 subs c3 hsubs
+  dsimp only at h
+  obtain ⟨ext, hext, h⟩ := bind_eq_ok h
+  cases ext with
+  | none =>
+    dsimp only at h
+    cases h
+    dsimp only
+    -- the first subtable (if any) is not an extension record: the lookup type is not `E`
+    intro s hs hx
+    obtain ⟨p, d, hp⟩ := hmem s hs
+    have htp : tp = E := (hE _ _ _ _ hp).mp hx
+    cases subs with
+    | nil => cases hs
+    | cons s0 rest =>
+      obtain ⟨p0, d0, hp0⟩ := hmem s0 List.mem_cons_self
+      have h0 : s0.isExt := (hE _ _ _ _ hp0).mpr htp
+      unfold isExtension at hext
+      rw [if_neg (by simp), idx_ok _ _ 0 (by simp), ok_bind] at hext
+      cases s0 with
+      | ext _ _ =>
+        simp only [List.getElem_cons_zero] at hext
+        cases hext
+      | other _ => exact h0
+  | some et =>
+    dsimp only at h
+    split at h
+    · cases h
+    · rename_i hne
+      obtain ⟨⟨subs', c4⟩, hres, h⟩ := bind_eq_ok h
+      have hmem2 := resolveExt_mem sr et lp so' cnt' subs 0 subs' c4 hres
+      cases h
+      dsimp only
+      obtain ⟨eo, rest, hsubs'⟩ := isExtension_some hext
+      subst hsubs'
+      obtain ⟨p0, d0, hp0⟩ := hmem _ List.mem_cons_self
+      have htp : tp = E := (hE _ _ _ _ hp0).mp True.intro
+      intro s hs hx
+      obtain ⟨p, d, hp⟩ := hmem2 s hs
+      have : et = E := (hE _ _ _ _ hp).mp hx
+      omega
+
+include hE in
+theorem readLookups_no_ext (b : Bytes) (pos n : Nat) :
+    ∀ (os : List Nat) (i numL numS : Nat) (prev : List Nat) (r : List (Lookup σ)) (c : Cost),
+    readLookups sr b pos n os i numL numS prev = .ok (r, c) → ∀ l ∈ r, ∀ s ∈ l.subs, ¬ s.isExt
+  | [], _, _, _, _, r, c, h => by
+    unfold readLookups at h
+    cases h
+    intro l hl
+    cases hl
+  | o :: os, i, numL, numS, prev, r, c, h => by
+    unfold readLookups at h
+    obtain ⟨⟨⟨l, cnt, so⟩, d⟩, hd, h⟩ := bind_eq_ok h
+    dsimp only at h
+    obtain ⟨_, _, h⟩ := bind_eq_ok h
+    obtain ⟨⟨r', c'⟩, hr, h⟩ := bind_eq_ok h
+    cases h
+    intro l' hl'
+    cases hl' with
+    | head => exact readLookup_no_ext sr E hE b _ _ _ _ l cnt so d hd
+    | tail _ hl' => exact readLookups_no_ext b pos n os (i + 1) _ _ so r' c' hr l' hl'
+
+include hE in
+/-- if exactly the lookup type `E` yields extension records (and yields nothing else), every
+subtable of a successfully read lookup list is a non-extension subtable -/
+theorem readLookupList_no_ext (b : Bytes) (pos : Nat) (r : List (Lookup σ)) (c : Cost)
+    (h : readLookupList sr b pos = .ok (r, c)) : ∀ l ∈ r, ∀ s ∈ l.subs, ¬ s.isExt := by
+  unfold readLookupList at h
+  obtain ⟨n, _, h⟩ := bind_eq_ok h
+  obtain ⟨_, _, h⟩ := bind_eq_ok h
+  obtain ⟨⟨offs, c1⟩, _, h⟩ := bind_eq_ok h
+  dsimp only at h
+  obtain ⟨_, _, h⟩ := bind_eq_ok h
+  obtain ⟨⟨r', c2⟩, hr, h⟩ := bind_eq_ok h
+  cases h
+  exact readLookups_no_ext sr E hE b pos offs.length offs 0 0 0 [] r' c2 hr
+
+end noext
+
+/-- the repaired GSUB dispatcher returns an extension record exactly for lookup type 7 -/
+theorem gsubReader_isExt_iff {σ : Type} (sub : SubReaders σ) (b : Bytes) (tp p : Nat) (v : SubV σ)
+    (d : Cost) (h : gsubReader sub b tp p = .ok (v, d)) : v.isExt ↔ tp = 7 := by
+  unfold gsubReader dispatch at h
+  obtain ⟨format, _, h⟩ := bind_eq_ok h
+  dsimp only at h
+  split at h
+  · cases h
+  · rename_i hg
+    simp only [Bool.or_eq_true, Bool.not_eq_true', decide_eq_true_eq, not_or, Bool.not_eq_false,
+      Nat.not_lt] at hg
+    obtain ⟨⟨hk, htp⟩, hf⟩ := hg
+    have hkey : (10 * tp + format) % 65536 = 10 * tp + format := Nat.mod_eq_of_lt (by omega)
+    rw [hkey] at hk h
+    simp only [gsubKeys, List.contains_cons, List.contains_nil, Bool.or_false, Bool.or_eq_true,
+      beq_iff_eq] at hk
+    split at h
+    · obtain ⟨⟨v', d'⟩, hd, h⟩ := bind_eq_ok h
+      cases h
+      obtain ⟨⟨et, eo, hv⟩, _, _⟩ := readExtensionSubtable_ok hd
+      subst hv
+      exact ⟨fun _ => by omega, fun _ => True.intro⟩
+    · obtain ⟨⟨v', d'⟩, hd, h⟩ := bind_eq_ok h
+      cases h
+      exact ⟨fun hx => absurd hx (fun hx => hx), fun h7 => by omega⟩
+
+/-- the repaired GPOS dispatcher returns an extension record exactly for lookup type 9 -/
+theorem gposReader_isExt_iff {σ : Type} (sub : SubReaders σ) (b : Bytes) (tp p : Nat) (v : SubV σ)
+    (d : Cost) (h : gposReader sub b tp p = .ok (v, d)) : v.isExt ↔ tp = 9 := by
+  unfold gposReader dispatch at h
+  obtain ⟨format, _, h⟩ := bind_eq_ok h
+  dsimp only at h
+  split at h
+  · cases h
+  · rename_i hg
+    simp only [Bool.or_eq_true, Bool.not_eq_true', decide_eq_true_eq, not_or, Bool.not_eq_false,
+      Nat.not_lt] at hg
+    obtain ⟨⟨hk, htp⟩, hf⟩ := hg
+    have hkey : (10 * tp + format) % 65536 = 10 * tp + format := Nat.mod_eq_of_lt (by omega)
+    rw [hkey] at hk h
+    simp only [gposKeys, List.contains_cons, List.contains_nil, Bool.or_false, Bool.or_eq_true,
+      beq_iff_eq] at hk
+    split at h
+    · obtain ⟨⟨v', d'⟩, hd, h⟩ := bind_eq_ok h
+      cases h
+      obtain ⟨⟨et, eo, hv⟩, _, _⟩ := readExtensionSubtable_ok hd
+      subst hv
+      exact ⟨fun _ => by omega, fun _ => True.intro⟩
+    · obtain ⟨⟨v', d'⟩, hd, h⟩ := bind_eq_ok h
+      cases h
+      exact ⟨fun hx => absurd hx (fun hx => hx), fun h9 => by omega⟩
+
+/-- **the repair of C02-lookuplist-ext-ext** (GSUB): with the repaired dispatcher no extension record
+is left in a successfully read lookup list — an extension record whose target is again an
+extension record is impossible (ExtensionLookupType 7 is refused by `readLookupList`, and no other
+lookup type reaches `readExtensionSubtable`).  This is what makes the `panic("unreachable")` of
+`extensionSubtable.apply` unreachable from `gtab.Read`. -/
+theorem dispatch_no_ext_ext {σ : Type} (sub : SubReaders σ) (b : Bytes) (pos : Nat)
+    (r : List (Lookup σ)) (c : Cost) (h : readLookupList (gsubReader sub b) b pos = .ok (r, c)) :
+    ∀ l ∈ r, ∀ s ∈ l.subs, ¬ s.isExt :=
+  readLookupList_no_ext (gsubReader sub b) 7 (gsubReader_isExt_iff sub b) b pos r c h
+
+/-- the same for GPOS (extension lookup type 9) -/
+theorem dispatch_no_ext_ext_gpos {σ : Type} (sub : SubReaders σ) (b : Bytes) (pos : Nat)
+    (r : List (Lookup σ)) (c : Cost) (h : readLookupList (gposReader sub b) b pos = .ok (r, c)) :
+    ∀ l ∈ r, ∀ s ∈ l.subs, ¬ s.isExt :=
+  readLookupList_no_ext (gposReader sub b) 9 (gposReader_isExt_iff sub b) b pos r c h
 
 /-! ## non-vacuity -/
 
